@@ -39,7 +39,6 @@ def kf(id, cls, prop, pattern, example_input, what, clause=None, extra=None):
 P7 = "the post-processing pass strips blanks at the end of every output line, also inside multi-line strings and raw blocks (cannot be repaired without violating C11 for the same input)"
 kf("K1-C01", "P7 literal-line-trailing-blanks", "C01", r"^C01\|literal-line-trailing-blanks\|", "```\nx  \ny\n```", P7, "literal-line-trailing-blanks")
 kf("K1-C10", "P7 literal-line-trailing-blanks", "C10", r"^C10\|literal-line-trailing-blanks\|", "#let v = \"a  \nb\"", P7, "literal-line-trailing-blanks")
-kf("K1-C13", "P7 literal-line-trailing-blanks", "C13", r"^C13\|splice-literal-line-trailing-blanks\|", "#let v = \"a  \nb\"", "range formatting of a node that holds a multi-line literal: " + P7, "splice-literal-line-trailing-blanks")
 kf("K1-C02", "P7 literal-line-trailing-blanks", "C02", r"^C02\|rendering-differs\|dev=\w+:\w+>Raw\[", PRELUDE + "#[\n  ```py\n  x  y\n  \n```\n]", "a whitespace-only line before the closing fence of a raw block loses its blanks, which changes the dedent and the rendered raw text: " + P7, "rendering-differs")
 
 # --------------------------------------------------------------------------- K2: math row trailing comma (P13)
@@ -53,6 +52,7 @@ kf("K2-C13", "P13 math-row-trailing-comma", "C13", r"^C13\|splice-changes-tree\|
 # --------------------------------------------------------------------------- K3: adjacent block comments in math (P16)
 P16 = "two adjacent block comments inside math delimiters get a space between them: whitespace is created between math atoms where the source had none"
 kf("K3-C01", "P16 math-adjacent-comments", "C01", r"^C01\|tree\|(.*&)?dev=math:\w+>MathDelimited\[[^\]]*\]:bc_bc", "$(/*c1*//*c2*/x)$", P16, "tree")
+kf("K3-C13", "P16 math-adjacent-comments", "C13", r"^C13\|splice-changes-tree\|(.*&)?dev=math:\w+>MathDelimited\[[^\]]*\]:bc_bc", "$(/*c1*//*c2*/x)$", P16 + " (range formatting of the equation or the document)", "splice-changes-tree")
 kf("K3-C03", "P16 math-adjacent-comments", "C03", r"^C03\|not-idempotent\|(.*&)?dev=math:\w+>(MathDelimited|MathFrac|MathAttach|MathRoot)\[[^\]]*\]:(bc_bc|bc|lc|lc_sp|lc_lc|nl_lc|bc_sp|off_lc|off_bc|off_tight|off_reason|off_mid)[|&]", "$f(#1//c1\n)$", "a comment inside math delimiters gets its separating space from two places; the second pass adds another space (converges after two passes)", "not-idempotent")
 kf("K3b-C09", "P16 math-adjacent-comments", "C09", r"^C09\|ws-added\|(.*&)?dev=math:\w+>MathDelimited\[[^\]]*\]:bc_bc", "$(/*c1*//*c2*/x)$", P16, "ws-added")
 kf("K3-C09", "P16 math-adjacent-comments", "C09", r"^C09\|ws-added\|extra=math:\w+:(.*[+⏎_])?/\*c\*/\+/\*c\*/", "$(/*c*//*c*/)$", P16, "ws-added")
@@ -65,7 +65,6 @@ P15 = "a multi-line block comment directly in front of a list/enum/term marker a
 MARK = r"dev=markup:\w+>ContentBlock\[LeftBracket\^(List|Enum|Term)Marker\]:(bc_star|bc_ml|bc_ws_line|bc_blank|bc_tab|bc_uni)"
 kf("K5-C01", "P15 comment-before-list-marker", "C01", r"^C01\|tree\|(.*&)?" + MARK, "#g[/* c1\n * d\n */- foo\n    bar\n]", P15, "tree")
 kf("K5-C03", "P15 comment-before-list-marker", "C03", r"^C03\|not-idempotent\|(.*&)?" + MARK, "#g[/* c1\n * d\n */- foo\n    bar\n]", P15, "not-idempotent")
-kf("K5-C13", "P15 / list item not at line start", "C13", r"^C13\|splice-changes-tree\|((.*&)?dev=markup:\w+>ContentBlock\[LeftBracket\^(List|Enum|Term)Marker\]|spine=\w+/(content\w*|strong|emph)(@\d)?/(list|enum|term)\w*\|)", "#g[- foo\n    bar\n]", "range formatting infers the indentation of a list item from the leading blanks of its line; an item that starts after '[' on the same line is re-indented relative to column 0 and its continuation lines leave the item", "splice-changes-tree")
 
 # --------------------------------------------------------------------------- K6: list items in a content block whose bracket cannot be broken
 D5 = "a list/enum/term item that starts right after '[' inside a context where the bracket cannot be moved to its own line (strong/emph body, a line of text, a heading): the following lines are indented by one unit relative to the enclosing indentation, not relative to the marker, so with tab width 4 (or deeper nesting) they change their nesting"
@@ -88,8 +87,9 @@ kf("K8l-C03", "directive at the end of a list item line", "C03", r"^C03\|not-ide
 kf("K8b-C03", "E forced-break-under-suppression", "C03", r"^C03\|not-idempotent\|(.*&)?dev=code:\w+>(CodeBlock|Code)\[[^\]]*\]:(bc|bc_sp|bc_ml|bc_star|bc_bc|nl_bc_nl|lc|lc_sp|lc_lc|nl_lc|off_bc|off_lc|off_tight|off_reason|off_mid|bc_ws_line|bc_blank|bc_tab|bc_uni)", "$#g({a/*c1*/})$", E, "not-idempotent")
 kf("K8c-C03", "E / trivia inside a field access chain", "C03", r"^C03\|not-idempotent\|(.*&)?dev=\w+:\w+>FieldAccess\[.*\|at=.*(block2_semi|block2_ml|import\w*|table\w*|grid\w*)", "#a.f({b; c}).\ng(d)", "a line break or comment inside a method chain whose call arguments hold a node that always breaks: " + E, "not-idempotent")
 kf("K8d-C03", "H asymmetric content block edge", "C03", r"^C03\|not-idempotent\|(.*&)?dev=markup:\w+>ContentBlock\[(LeftBracket\^\w+|\w+\^RightBracket)\]", "#[ $ x $]", "a content block with a blank at only one of its inner edges whose content breaks at a narrow width: the first pass keeps the blank as a space because the source is on one line, the second pass sees a multi-line source and turns it into a line break", "not-idempotent")
+kf("K8d2-C03", "H asymmetric content block edge (heading)", "C03", r"^C03\|not-idempotent\|extra=prose:block_heading_sp:", "#[= #g(a, b) ]", "a heading inside a content block, followed by a blank before ']', whose content breaks at a narrow width: the first pass keeps the blank as a space, the second pass sees a multi-line source and turns it into a line break", "not-idempotent")
 kf("K8e-C03", "P12 heading with line comment", "C03", r"^C03\|not-idempotent\|(.*&)?dev=markup:\w+>Heading\[HeadingMarker\^\w+\]:(lc|lc_sp|lc_lc|nl_lc|off_lc|off_reason)", "=//c1\nfoo", "a line comment directly after a heading marker gains a space on the second pass", "not-idempotent")
-kf("K8f-C03", "adjacent comments after a chain operator", "C03", r"^C03\|not-idempotent\|(.*&)?dev=code:\w+>(Binary\[\w+\^\w+\]|FieldAccess\[Dot\^Ident\]):bc_bc", "#let v = a + b +/*c1*//*c2*/c", "two adjacent block comments after an operator of a broken binary chain (or after the dot of a broken method chain) are printed tight by the first pass and spaced by the second", "not-idempotent")
+kf("K8f-C03", "adjacent comments after a chain operator", "C03", r"^C03\|not-idempotent\|(.*&)?dev=\w+:\w+>(Binary\[\w+\^\w+\]|FieldAccess\[Dot\^Ident\]):bc_bc", "#let v = a + b +/*c1*//*c2*/c", "two adjacent block comments after an operator of a broken binary chain (or after the dot of a broken method chain) are printed tight by the first pass and spaced by the second", "not-idempotent")
 kf("K8h-C03", "E / comment between call parts", "C03", r"^C03\|not-idempotent\|(.*&)?dev=markup:\w+>(FuncCall\[Ident\^LeftParen\]|Args\[RightParen\^LeftBracket\]):(bc|bc_sp|bc_ml|bc_star|bc_bc|sp|off_bc|off_tight|off_mid|bc_ws_line|bc_blank|bc_tab|bc_uni).*\|at=.*(block2_semi|block2_ml|import\w*|table\w*|grid\w*)", "#a({b; c})/*c1*/[foo]", "a comment (or blank) between the parts of a call whose argument holds a node that always breaks: " + E, "not-idempotent")
 kf("K8i-C03", "comment before ')' of a parenthesised import list", "C03", r"^C03\|not-idempotent\|(.*&)?dev=code:\w+>ModuleImport\[Ident\^RightParen\]:(bc|bc_sp|bc_ml|bc_star|bc_bc|off_bc|off_tight|off_mid|bc_ws_line|bc_blank|bc_tab|bc_uni)", "#{import \"m.typ\": (b, a/*c1*/)}", "a block comment before the closing parenthesis of an import list inside a code block: the first pass drops the parentheses and keeps the block on one line, the second pass breaks the block", "not-idempotent")
 kf("K8j-C03", "directive before an operand that gets optional parentheses", "C03", r"^C03\|not-idempotent\|(.*&)?dev=code:\w+>(ForLoop\[In\^\w+\]|Closure\[(Arrow|Eq)\^\w+\]):(off_bc|off_lc|off_tight|off_reason|off_mid)", "#for p in/* @typstyle off */a { b }", "an '@typstyle off' comment in front of a for-loop iterable or a closure body: at a narrow width the verbatim operand is wrapped in optional parentheses/braces by the first pass and the rest of the statement is laid out differently by the second", "not-idempotent")
@@ -130,6 +130,10 @@ FIXED = [
   fixed("C19", "sort import items by their text with blanks normalised", "with reordering on, 'a  as y, a as x' (two blanks) kept its order in the first run and was swapped by the second (also C03)"),
   fixed("C10", "keep the parentheses around a float literal that ends with a dot", "'(1.).f' was printed as '1..f' (also C01)"),
   fixed("C01", "a list item on a later line must not strip the leading space of a content block", "'foo #[ text<newline>- item ] bar' lost the space after '['"),
+  fixed("C04", "keep the space between a trailing backslash of a list item or heading and the closing bracket", "'#[- a \\ ]' was printed as '#[- a \\]': the line break became an escaped bracket, the output no longer parsed (also C01 C08)"),
+  fixed("C13", "range formatting indents a list item relative to the column of its marker", "an item that does not start its line ('#[- a', '- - b', an indented first line) was re-indented relative to the line's leading blanks: continuation lines and children left the item"),
+  fixed("C13", "range formatting keeps the result apart from a word it touches", "'(r) => a' selected out of '#if(r) => a [..]' came back as 'r => a' and fused with the keyword: '#ifr => a'"),
+  fixed("C01", "do not break a content block that holds nothing but block comments", "'a#[/*c*/]b' was printed with the comment on its own line: empty content became a blank (also C02 C08)"),
 ]
 
 json.dump({"_comment": "Known findings of the typstyle verification (DESIGN.md section 7). Rendered from tools/gen_known_findings.py by hand; checks only read this file.",
